@@ -96,3 +96,95 @@ func VerifC14_Filter() {
 	verifObserve("c14", tl, ql, len(hits))
 	verifReach("end")
 }
+
+const verifTemplate = "acgtcatgcaagtctgacctagcatggacttca"
+
+// VerifC14_Template: longer sequences, so that the tube-recycling tick fires several times and
+// the circular tube list wraps. Target = a fixed template prefix; query = the template from
+// `shift` on; the positions selected by the bit masks tsym / qsym are symbolic letters.
+func VerifC14_Template() {
+	k, n, e, off := verifParam("k"), verifParam("n"), verifParam("e"), verifParam("offset")
+	tl, ql, shift := verifParam("tlen"), verifParam("qlen"), verifParam("shift")
+	tmask, qmask := verifParam("tsym"), verifParam("qsym")
+	if k < kmerindex.MinKmerLen {
+		kmerindex.MinKmerLen = k
+	}
+	code := func(c byte) int {
+		switch c {
+		case 'a':
+			return 0
+		case 'c':
+			return 1
+		case 'g':
+			return 2
+		}
+		return 3
+	}
+	mk := func(name string, l, from, mask int) (*linear.Seq, []int) {
+		ls := make([]alphabet.Letter, l)
+		cs := make([]int, l)
+		for i := range ls {
+			x := code(verifTemplate[from+i])
+			if mask&(1<<uint(i)) != 0 {
+				x = verifInt(name+string(rune('a'+i)), 0, 3)
+			}
+			cs[i] = x
+			ls[i] = alphabet.Letter("acgt"[x])
+		}
+		return linear.NewSeq(name, ls, alphabet.DNA), cs
+	}
+	target, tc := mk("t", tl, 0, tmask)
+	query, qc := mk("q", ql, shift, qmask)
+	ki, err := kmerindex.New(k, target)
+	verifAssert(err == nil, "index-accepts")
+	if err != nil {
+		return
+	}
+	ki.Build()
+	f := New(ki, &Params{WordSize: k, MinMatch: n, MaxError: e, TubeOffset: off})
+	m, err := morass.New(Hit{}, "verif", "", 1000, false)
+	verifAssert(err == nil, "sorter-accepts")
+	if err != nil {
+		return
+	}
+	ferr := f.Filter(query, false, false, m)
+	verifAssert(ferr == nil, "filter-succeeds")
+	if ferr != nil {
+		return
+	}
+	var hits []Hit
+	for i := 0; i < 256; i++ {
+		var h Hit
+		if m.Pull(&h) == io.EOF {
+			break
+		}
+		hits = append(hits, h)
+	}
+	m.CleanUp()
+	band := off + e
+	matches := 0
+	for t0 := 0; t0+n <= len(tc); t0++ {
+		for q0 := 0; q0+n <= len(qc); q0++ {
+			mism := 0
+			for i := 0; i < n; i++ {
+				if tc[t0+i] != qc[q0+i] {
+					mism++
+				}
+			}
+			if mism > e {
+				continue
+			}
+			matches++
+			covered := false
+			d := q0 - t0
+			for _, h := range hits {
+				if h.From <= q0+n-1 && h.To > q0 && -h.Diagonal <= d && d <= -h.Diagonal+band-1 {
+					covered = true
+				}
+			}
+			verifAssert(covered, "epsilon-match-covered-by-a-hit")
+		}
+	}
+	verifObserve("c14t", tl, ql, len(hits), matches)
+	verifReach("end")
+}
